@@ -232,3 +232,23 @@ M("c05-twin-found-predicate", "C05", "benign", (S, "        return any(service.m
 M("c15-twin-for-c10-c11-timer-doubled", "C10,C11", "benign", (S, "            timeout, self._handle_timeout\n        )", "            timeout * 2, self._handle_timeout\n        )"))
 M("c15-collected-list-filtered", "C15,C10,C11,C12", "break", (S, "        queue.append(entry)\n", "        queue.data[:] = [e for e in queue.data if e.service_id != entry.service_id or e.sd_type != entry.sd_type]\n        queue.append(entry)\n"))
 M("c15-append-rearms-timer", "C15,C12", "break", (S, "        self.data.append(datum)\n", "        self._handle.cancel()\n        self._handle = asyncio.get_event_loop().call_later(0.005, self._handle_timeout)\n        self.data.append(datum)\n"))
+
+# ---------------------------------------------------------------- round B: fan-out completeness (C05 F2)
+M("c05-watch-all-listeners-forgotten", "C05", "break", (S, "                    listener.service_offered(service, source)\n        for listener in self.watcher_all_services:\n            listener.service_offered(service, source)\n", "                    listener.service_offered(service, source)\n"))
+M("c05-catchup-without-source", "C05", "break", (S, "                if service.matches_service(s):\n                    listener.service_offered(s, addr)", "                if service.matches_service(s):\n                    listener.service_offered(s, None)"))
+M("c05-notifier-swaps-arguments", "C05", "break", (S, "        for listener in self.watcher_all_services:\n            listener.service_stopped(service, source)", "        for listener in self.watcher_all_services:\n            listener.service_stopped(source, service)"))
+M("c05-twin-catchup-by-keys", "C05", "benign", (S, "        self.watcher_all_services.add(listener)\n\n        for addr, services in list(self.found_services.store.items()):\n            for s in list(services):\n                listener.service_offered(s, addr)", "        self.watcher_all_services.add(listener)\n\n        for addr in list(self.found_services.store):\n            for s in list(self.found_services.store[addr]):\n                listener.service_offered(s, addr)"))
+
+
+# ---------------------------------------------------------------- round B: whole-region refactorings written by independent
+# maintainers-for-a-day (benign/<id>/refactor.diff + refactor.json); every check must stay silent on each of them
+ALL = ",".join(f"C{i:02d}" for i in range(1, 21))
+REFACTORINGS = {
+    "R01": "C01,C18,C20,C03", "R02": "C02,C20,C03,C11,C12,C19", "R03": "C02,C20,C03", "R04": "C02,C20,C03",
+    "R05": "C19,C12,C13,C05", "R06": "C19,C14", "R07": "C03,C04,C07,C08,C01,C10", "R08": "C14,C04,C06",
+    "R09": "C05,C06,C09,C04", "R10": "C05,C13,C03,C04,C06", "R11": "C10,C11,C12,C06", "R12": "C15,C10,C11,C12,C03,C04",
+    "R13": "C08,C17", "R14": "C16,C17,C10",
+}
+for _r, _props in REFACTORINGS.items():
+    CORPUS.append({"name": f"refactoring-{_r}", "props": _props.split(","), "kind": "benign", "edits": [],
+                   "diff": f"benign/{_r}/refactor.diff"})
